@@ -53,72 +53,7 @@ func runC12(c *an.Ctx) {
 	cache := map[*ssa.Function]map[ssa.Instruction]an.Held{}
 	const rl = "filter/internal/rulelist."
 
-	// ---- R1
-	if fn := c.Fn(rl + "(*Refreshable).Refresh"); fn == nil {
-		c.Und("C12-R1", rl+"(*Refreshable).Refresh", token.NoPos, "anchor not found")
-	} else {
-		c.Analysed(an.FnKey(fn))
-		var swap, clear ssa.Instruction
-		an.Instrs(fn, func(in ssa.Instruction) {
-			switch x := in.(type) {
-			case *ssa.Store:
-				if typ, field, _, ok := an.FieldOf(x.Addr); ok && typ == "filter/internal/rulelist.filter" && field == "engine" {
-					swap = x
-				}
-			case *ssa.Call:
-				if x.Call.IsInvoke() && x.Call.Method.Name() == "Clear" {
-					clear = x
-				}
-			}
-		})
-		for _, it := range []struct {
-			what string
-			in   ssa.Instruction
-		}{{"engine swap", swap}, {"cache clear", clear}} {
-			key := "Refreshable.Refresh " + it.what
-			if it.in == nil {
-				c.Bad("C12-R1", key, fn.Pos(), "Refresh no longer performs the %s: results computed with the old list stay reachable", it.what)
-				continue
-			}
-			if m, _ := c.HeldAt(it.in, "mu", 0, cache); m != "w" {
-				c.Bad("C12-R1", key, it.in.Pos(), "the %s happens outside the write lock: a concurrent query can cache a result of the old engine after the clear", it.what)
-			} else {
-				c.Ok("C12-R1", key, it.in.Pos(), "under mu.Lock, same critical section")
-			}
-		}
-	}
-
-	// ---- R2
-	for _, fn := range c.FnsMatching(rl + "(*Refreshable).") {
-		if c.IsTestFile(fn.Pos()) || fn.Parent() != nil {
-			continue
-		}
-		for _, call := range an.Calls(fn) {
-			f := an.StaticCallee(call)
-			if f == nil || f.Signature.Recv() == nil || an.TypeName(f.Signature.Recv().Type()) != "filter/internal/rulelist.filter" {
-				continue
-			}
-			// methods that read engine or cache
-			touches := false
-			an.Instrs(f, func(in ssa.Instruction) {
-				if fa, ok := in.(*ssa.FieldAddr); ok {
-					if typ, field, _, ok := an.FieldOf(fa); ok && typ == "filter/internal/rulelist.filter" && (field == "engine" || field == "cache") {
-						touches = true
-					}
-				}
-			})
-			if !touches {
-				continue
-			}
-			c.Analysed(an.FnKey(fn))
-			key := an.FnKey(fn) + " -> filter." + f.Name()
-			if m, _ := c.HeldAt(call, "mu", 0, cache); m == "" {
-				c.Bad("C12-R2", key, call.Pos(), "the engine/cache of a refreshable list is used without holding its lock: the lookup-match-store sequence can straddle a refresh")
-			} else {
-				c.Ok("C12-R2", key, call.Pos(), "mu held (%s) across the lookup, match and store", m)
-			}
-		}
-	}
+	ruleListRefreshLocking(c, "C12-R1", "C12-R2", cache)
 
 	// ---- R3 generalised: types owning a result cache and a refresh
 	type owner struct{ typ, refresh, query, dataCall string }
@@ -747,4 +682,79 @@ func c12UpdateTime(c *an.Ctx) {
 	if n == 0 || escapes {
 		c.Und("C12-R10", conv+" call sites", fn.Pos(), "call sites of the conversion cannot be enumerated (%d found, escapes=%v)", n, escapes)
 	}
+}
+
+// ruleListRefreshLocking checks the locking of the in-place refreshable rule
+// lists (the safe-search lists): the engine swap and the cache clear happen in
+// one write-locked section (r1), and every lookup-match-store sequence runs with
+// the lock held (r2).
+func ruleListRefreshLocking(c *an.Ctx, r1, r2 string, cache map[*ssa.Function]map[ssa.Instruction]an.Held) {
+	const rl = "filter/internal/rulelist."
+	// ---- R1
+	if fn := c.Fn(rl + "(*Refreshable).Refresh"); fn == nil {
+		c.Und(r1, rl+"(*Refreshable).Refresh", token.NoPos, "anchor not found")
+	} else {
+		c.Analysed(an.FnKey(fn))
+		var swap, clear ssa.Instruction
+		an.Instrs(fn, func(in ssa.Instruction) {
+			switch x := in.(type) {
+			case *ssa.Store:
+				if typ, field, _, ok := an.FieldOf(x.Addr); ok && typ == "filter/internal/rulelist.filter" && field == "engine" {
+					swap = x
+				}
+			case *ssa.Call:
+				if x.Call.IsInvoke() && x.Call.Method.Name() == "Clear" {
+					clear = x
+				}
+			}
+		})
+		for _, it := range []struct {
+			what string
+			in   ssa.Instruction
+		}{{"engine swap", swap}, {"cache clear", clear}} {
+			key := "Refreshable.Refresh " + it.what
+			if it.in == nil {
+				c.Bad(r1, key, fn.Pos(), "Refresh no longer performs the %s: results computed with the old list stay reachable", it.what)
+				continue
+			}
+			if m, _ := c.HeldAt(it.in, "mu", 0, cache); m != "w" {
+				c.Bad(r1, key, it.in.Pos(), "the %s happens outside the write lock: a concurrent query can cache a result of the old engine after the clear", it.what)
+			} else {
+				c.Ok(r1, key, it.in.Pos(), "under mu.Lock, same critical section")
+			}
+		}
+	}
+
+	// ---- R2
+	for _, fn := range c.FnsMatching(rl + "(*Refreshable).") {
+		if c.IsTestFile(fn.Pos()) || fn.Parent() != nil {
+			continue
+		}
+		for _, call := range an.Calls(fn) {
+			f := an.StaticCallee(call)
+			if f == nil || f.Signature.Recv() == nil || an.TypeName(f.Signature.Recv().Type()) != "filter/internal/rulelist.filter" {
+				continue
+			}
+			// methods that read engine or cache
+			touches := false
+			an.Instrs(f, func(in ssa.Instruction) {
+				if fa, ok := in.(*ssa.FieldAddr); ok {
+					if typ, field, _, ok := an.FieldOf(fa); ok && typ == "filter/internal/rulelist.filter" && (field == "engine" || field == "cache") {
+						touches = true
+					}
+				}
+			})
+			if !touches {
+				continue
+			}
+			c.Analysed(an.FnKey(fn))
+			key := an.FnKey(fn) + " -> filter." + f.Name()
+			if m, _ := c.HeldAt(call, "mu", 0, cache); m == "" {
+				c.Bad(r2, key, call.Pos(), "the engine/cache of a refreshable list is used without holding its lock: the lookup-match-store sequence can straddle a refresh")
+			} else {
+				c.Ok(r2, key, call.Pos(), "mu held (%s) across the lookup, match and store", m)
+			}
+		}
+	}
+
 }
